@@ -150,10 +150,15 @@ func (g *rtRig) newSesh() *mux.Session {
 
 func (g *rtRig) calls() int { g.mu.Lock(); defer g.mu.Unlock(); return len(g.tx) }
 
+var rtStackBuf = make([]byte, 1<<20)
+
 func rtReturnGoroutines() int {
-	buf := make([]byte, 16<<20)
-	buf = buf[:runtime.Stack(buf, true)]
-	return strings.Count(string(buf), "created by github.com/cbeuw/Cloak/internal/client.RouteUDP in goroutine")
+	n := runtime.Stack(rtStackBuf, true)
+	for n == len(rtStackBuf) {
+		rtStackBuf = make([]byte, 2*len(rtStackBuf))
+		n = runtime.Stack(rtStackBuf, true)
+	}
+	return bytes.Count(rtStackBuf[:n], []byte("created by github.com/cbeuw/Cloak/internal/client.RouteUDP in goroutine"))
 }
 
 func (g *rtRig) openTx() int {
@@ -499,7 +504,7 @@ func c14route(c *ctx) {
 		return
 	}
 	probe.Close()
-	rigs, steps := 4, 40
+	rigs, steps := 4, 32
 	if c.thorough() {
 		rigs, steps = 24, 120
 	}
